@@ -361,6 +361,13 @@ func coqStringList(l []string) string {
 	return "[" + strings.Join(q, "; ") + "]"
 }
 
+func posOf(cs []*ast.CallExpr) token.Pos {
+	if len(cs) == 0 {
+		return token.NoPos
+	}
+	return cs[0].Pos()
+}
+
 func genSocksConsts() {
 	p := parseDir(filepath.Join(*repo, "pkg/scan/socks5"))
 	var b bytes.Buffer
@@ -629,6 +636,31 @@ func genSocksConsts() {
 	probeWithNames(map[string]string{probeRecvName(scan): "scanner"}, func() {
 		fmt.Fprintf(&b, "Definition socks_conn_timeout_from : string := %s%%string.\n", coqString(probeExprString(tmo)))
 	})
+
+	// SO_LINGER: SetLinger takes SECONDS; the final conn.Close() may block that long when the FIN is not acknowledged
+	lng := probeFindCalls(scan, "SetLinger")
+	if len(lng) != 1 || len(lng[0].Args) != 1 {
+		die("%s: Scan does not call SetLinger(seconds) exactly once", p.pos(scan))
+	}
+	fmt.Fprintf(&b, "Definition socks_linger_seconds : Z := %s.\n", zlit(probeEvalConst(p, lng[0].Args[0], 0)))
+	// socksConn.Read / Write: a fresh deadline now + timeout before EVERY operation, whatever the timeout's sign
+	// (a zero or negative timeout is an already expired deadline, never "no deadline")
+	for _, m := range []struct{ meth, set string }{{"Read", "SetReadDeadline"}, {"Write", "SetWriteDeadline"}} {
+		fd := p.findFunc("socksConn", m.meth)
+		cs := probeFindCalls(fd, m.set)
+		arg := "missing"
+		if len(cs) == 1 && len(cs[0].Args) == 1 {
+			probeWithNames(map[string]string{probeRecvName(fd): "recv"}, func() {
+				arg = probeExprString(probeResolveLocal(fd, cs[0].Args[0]))
+			})
+		}
+		// the deadline call must be the first statement and unconditional
+		first := len(fd.Body.List) > 0 && fd.Body.List[0].Pos() <= posOf(cs) && posOf(cs) <= fd.Body.List[0].End()
+		if !first {
+			arg = "not-first:" + arg
+		}
+		fmt.Fprintf(&b, "Definition socks_%s_deadline : string := %s%%string.\n", strings.ToLower(m.meth), coqString(arg))
+	}
 
 	// command/socks.go: flag default and wiring of --timeout
 	cp := parseDir(filepath.Join(*repo, "command"))
